@@ -19,6 +19,10 @@ type envState struct {
 	randClaimed map[int]bool
 	secretVars  map[int]bool
 	sigChans    []*ChanObj
+	procs       []*procModel
+	hookKind    int
+	hookStartFails bool
+	timerFires  int
 	lastMarshalled Value
 	yamlDocs    map[string]interface{} // resolved path -> Iface document (nil = malformed)
 }
@@ -52,6 +56,7 @@ func (s *scheduler) fireTimer() bool {
 		if t.armed {
 			t.armed = false
 			s.in.trySend(t.ch, s.in.zeroTime())
+			e.timerFires++
 			return true
 		}
 	}
@@ -67,6 +72,7 @@ func (in *Interp) zeroTime() Value {
 }
 
 func RegisterEnv(p *Program) {
+	registerProc(p)
 	registerWeb(p)
 	registerPersist(p)
 	registerStrconv(p)
